@@ -39,7 +39,10 @@ given, so a parsed Database is never shared).
                                  compositions stay in the window: in the dilute corner (x clipped to 1e-8) the solver noise in
                                  D reaches 1e-8 (measured).  Both members perform the same public call sequence
                                  (setup, getFluxes, solve); the run length is not a whole number of initial steps.
-(2) phase order - two-/three-phase Al-Mg-Si precipitation runs with the precipitate list (model and backend) in
+(2) phase order - two-/three-phase Al-Mg-Si precipitation runs and BINARY Cu-Ti runs with the two precipitate phases
+    CU4TI / CU3TI2 (tabulated interfacial compositions per phase; isothermal Euler, isothermal RK4 and a non-isothermal
+    configuration whose tables are rebuilt; interfacial energy, molar volume, site and shape differ per phase and are given by
+    name) with the precipitate list (model and backend) in
     every order; all per-phase options are given by phase name and are heterogeneous (distinct molar volumes and
     interfacial energies, sites, parent phases; every fourth configuration: ONE phase - which one varies - computes its
     aspect ratio from an elastic strain energy (calculateAspectRatio, needle/plate, bulk sites, infinite internal
@@ -87,7 +90,7 @@ LEVEL = 'exploration'
 RULE = ('element order: systems {Ni-Cr-Al mobility, Ni-Cr-Al diffusivity, Fe-Cr-Ni} x driving-force method x random (x,T) points, 9 query kinds '
         'per point on paired fresh objects; a point is non-trivial when >= 4 query kinds returned arrays that differ from their own '
         'permutation by > 1e-3 (an un-permuted answer would be visible). Diffusion pairs: non-trivial when >= 10 steps were recorded and the '
-        'profiles moved by > 1e-4 and rows differ. Phase order: Al-Mg-Si 2 (quick) / 2-3 (thorough) precipitate phases, all orders; '
+        'profiles moved by > 1e-4 and rows differ. Phase order: Al-Mg-Si 2 (quick) / 2-3 (thorough) precipitate phases and binary Cu-Ti with 2 precipitate phases, all orders; '
         'non-trivial when >= 2 phases reach a density >= 1e15 /m3 (temperature candidates are tried in turn). Rule / site oracle: '
         'synthetic multi-phase inputs, non-trivial when the per-phase (single-phase) evaluations differ between phases, resp. when the '
         'phase shares its site type with another populated phase or has a parent and the result is not clamped to 0. Distinct by sub-case key.')
@@ -197,6 +200,13 @@ def plan(tier, seed):
         nph = len(cfg['phases'])
         w = cfg['max_steps'] * 0.045 * (nph / 2.0) * (3.0 if cfg['iterator'] == 'rk4' else 1.0) * (1 + (2 if nph == 2 else 6))
         cases.append({'kind': 'precip', 'k': k, 'cfg': cfg, 'weight': w})
+    # binary matrix with two precipitate phases (Cu-Ti: CU4TI, CU3TI2) - tabulated interfacial compositions per phase
+    ncu = 3 if quick else 12
+    for k in range(ncu):
+        rng = core.case_rng(seed, PROPERTY, 400000 + k)
+        cfg = _cuti_cfg(rng, tier, k)
+        w = cfg['max_steps'] * 0.03 * 2 * (3.0 if cfg['iterator'] == 'rk4' else 1.0) * (3.0 if cfg['schedule']['kind'] != 'iso' else 1.0)
+        cases.append({'kind': 'precip', 'k': 500 + k, 'cfg': cfg, 'weight': w})
     if not quick:
         for k in range(2):
             rng = core.case_rng(seed, PROPERTY, 200000 + k)
@@ -583,6 +593,42 @@ def _precip_cfg(rng, tier, k):
     return cfg
 
 
+def _cuti_cfg(rng, tier, k):
+    """binary Cu-Ti with the two precipitate phases CU4TI and CU3TI2; every per-phase option is given by phase name and differs
+    between the phases (interfacial energy, molar volume, site, shape), k % 3: isothermal Euler / isothermal RK4 / non-isothermal"""
+    cfg = precip.default_cfg('cuti')
+    ph = list(cfg['phases'])
+    cfg['gamma'] = {'CU4TI': float(rng.uniform(0.03, 0.045)), 'CU3TI2': float(rng.uniform(0.06, 0.08))}
+    cfg['VmBeta'] = {'CU4TI': float(7.6e-6 * rng.uniform(0.9, 1.0)), 'CU3TI2': float(7.6e-6 * rng.uniform(1.05, 1.2))}
+    cfg['x0'] = [float(rng.uniform(0.016, 0.024))]
+    T0 = float(rng.uniform(610, 650))
+    mode = k % 3
+    noniso = (mode == 2)
+    if noniso:
+        dT = float(rng.uniform(8, 20)) * (1 if (k // 3) % 2 == 0 else -1)
+        scheds = [{'kind': 'array', 'hours': [0.0, float(rng.uniform(0.02, 0.06))], 'temps': [T, T + dT]} for T in (T0, 623.15, 640.0)]
+        cfg['pbm'] = {'cMin': 1e-10, 'cMax': 1e-8, 'bins': 36, 'minBins': 25, 'maxBins': 60, 'adaptive': True}   # table rebuilds are costly
+    else:
+        scheds = [{'kind': 'iso', 'T': T} for T in (T0, 623.15, 640.0)]
+    cfg['schedule_candidates'] = scheds
+    cfg['schedule'] = scheds[0]
+    cfg['T_candidates'] = []
+    cfg['segments'] = [1e6]
+    cfg['iterator'] = 'rk4' if (mode == 1 or (noniso and (k // 3) % 2 == 1)) else 'euler'
+    cfg['constraints'] = {'dtScale': float(rng.choice([0.1, 0.3])), 'maxVolumeChange': float([1e-3, 1e-4][(k // 3) % 2])}
+    if (k // 3) % 2 == 1:
+        cfg['site'] = {'CU4TI': 'bulk', 'CU3TI2': 'dislocations'}
+        cfg['dislocationDensity'] = float(10 ** rng.uniform(14.5, 15.5))
+        cfg['shape'] = {'CU4TI': {'name': 'plate', 'ar': float(rng.uniform(1.5, 3.0))}}
+    if k % 4 == 3:
+        cfg['parents'] = {'CU4TI': ['CU3TI2']}
+    cfg['bulkN0'] = float(10 ** rng.uniform(29, 30))
+    cfg['removeCache'] = True
+    ms = {0: 250, 1: 120, 2: 150}[mode] if tier == 'quick' else {0: 600, 1: 250, 2: 300}[mode]
+    cfg['max_steps'] = int(ms)
+    return cfg
+
+
 def _phase_inputs_from_model(model):
     """per-phase inputs of the step-size rules, taken from the live model exactly as getDt hands them over"""
     P = len(model.phases)
@@ -737,9 +783,10 @@ def _run_precip(case, R):
     cfg0 = case['cfg']
     observe_only = bool(case.get('observe_only'))
     base = None
-    for T in cfg0['T_candidates']:
+    candidates = cfg0.get('schedule_candidates') or [{'kind': 'iso', 'T': float(T)} for T in cfg0['T_candidates']]
+    for sched in candidates:
         cfg = json.loads(json.dumps(cfg0))
-        cfg['schedule'] = {'kind': 'iso', 'T': float(T)}
+        cfg['schedule'] = sched
         runA, monA = _phase_run(cfg, R, in_run=not observe_only)
         if R.inconclusive:
             return
@@ -763,11 +810,15 @@ def _run_precip(case, R):
         return
     cfg, runA, monA, A, active = base
     P = len(cfg['phases'])
-    mech0 = {'nphases': P, 'iterator': cfg['iterator'], 'sites': '+'.join(sorted(set(cfg['site'].values()))),
+    mech0 = {'system': cfg['system'], 'schedule': cfg['schedule']['kind'], 'nphases': P, 'iterator': cfg['iterator'],
+             'sites': '+'.join(sorted(set(cfg['site'].values()))),
              'parents': bool(cfg.get('parents')), 'calcAR': bool(cfg.get('calcAR'))}
-    R.info.update({'T': cfg['schedule']['T'], 'phases': cfg['phases'], 'active': active, 'steps': len(A['time']) - 1, 'capped': runA.capped,
+    R.info.update({'system': cfg['system'], 'schedule': cfg['schedule'], 'phases': cfg['phases'], 'active': active, 'steps': len(A['time']) - 1, 'capped': runA.capped,
                    'constraints': cfg['constraints'], 'binding_rule_steps': monA.binding, 'in_run_nontrivial_steps': monA.nt,
                    'max_density': [float(np.max(A['precipitateDensity'][:, j])) for j in range(P)]})
+    R.info['temperature_span'] = float(np.max(A['temperature']) - np.min(A['temperature']))
+    if R.info['temperature_span'] > 1.0:
+        R.observe('nonisothermal_pairs_with_more_than_1K')
     for k, v in monA.binding.items():
         R.observe('binding_' + k, v)
     for k, v in monA.nt.items():
@@ -803,7 +854,7 @@ def _run_precip(case, R):
         mech0 = dict(mech0, in_run_rule_violations='+'.join(fired) if fired else 'none')
         R.check('c11.phase.steps', steps_ok, mech0, steps_A=len(A['time']) - 1, steps_B=len(B['time']) - 1, order=cfgB['phases'],
                 capped=(runA.capped, runB.capped))
-        det_common = {'order': cfgB['phases'], 'base_order': cfg['phases'], 'T': cfg['schedule']['T']}
+        det_common = {'order': cfgB['phases'], 'base_order': cfg['phases'], 'schedule': cfg['schedule']}
 
         def at_step(k, f):
             return {'first_diverging_step': f, 'first_diverging_overall': first, 'A_at_step': np.asarray(A[k])[f],
